@@ -477,6 +477,27 @@ class Gen:
             srcs = self.atom_srcs(a)
             lab, src = srcs[r.below(len(srcs))]
             E.append((a[0] + ":after-gc:" + lab, src))
+        # NaN (session 3): excluded from the laws, but part of the model type.  Only patterns whose NaN-box tag bits 47..50 are
+        # zero are numbers: quiet / negative quiet / signalling / payload-carrying NaN; alone, inside tuples, as struct values,
+        # as (ignored) struct and table keys, inside a tuple used as key (accepted).
+        nb = lambda b: "(nb 0x%X 0x%X)" % (b >> 32, b & 0xFFFFFFFF)
+        for b in (0x7FF8000000000000, 0xFFF8000000000000, 0x7FF0000000000001, 0x7FF8000000000123, 0xFFF0000000007FFF):
+            E.append(("nan:nb", nb(b)))
+        E.append(("nan:math/nan", "math/nan"))
+        E.append(("nan:computed", "(- math/inf math/inf)"))
+        E.append(("nan:negated", "(- math/nan)"))
+        E.append(("nan:unmarshal", "(unmarshal (marshal math/nan))"))
+        E.append(("nan:in-tuple", "[math/nan]"))
+        E.append(("nan:in-tuple", "(tuple 1 %s :a)" % nb(0x7FF0000000000001)))
+        E.append(("nan:in-tuple-shared", "(let [t [math/nan 1]] [t t])"))
+        E.append(("nan:as-struct-value", "{:a math/nan}"))
+        E.append(("nan:as-struct-value", "(struct :a %s)" % nb(0xFFF8000000000000)))
+        E.append(("nan:as-struct-key-ignored", "(struct math/nan 1 :a 2)"))
+        E.append(("nan:as-struct-key-ignored", "(struct :a 2 %s 1 %s 3)" % (nb(0x7FF0000000000001), nb(0xFFF8000000000000))))
+        E.append(("nan:as-struct-key-ignored", "(struct :a 2)"))
+        E.append(("nan:as-table-key-ignored", "(table/to-struct (let [t @{}] (put t math/nan 1) (put t :a 2) t))"))
+        E.append(("nan:tuple-key-accepted", "(struct [math/nan] 1)"))
+        E.append(("nan:tuple-key-accepted", "(struct [math/nan] 1 :b 2)"))
         return self
 
     def script(self):
